@@ -211,7 +211,19 @@ def generate(rng, tier):
                 t2, c2 = place(childdir, n2)
                 gen_file(t2, c2, depth + 1, st)
                 other = "mod %s;" % n2
-            return "cfg_if::cfg_if! {\n    if #[cfg(unix)] {\n        mod %s;\n    } else {\n        %s\n    }\n}\n" % (name, other)
+            nested = ""
+            if budget[0] > 0 and names and rng.chance(25):
+                # a cfg_if! directly inside the arm of another one: its modules are modules of this crate too
+                budget[0] -= 1
+                n3 = names.pop(0)
+                t3, c3 = place(childdir, n3)
+                before = set(m.status)
+                gen_file(t3, c3, depth + 1, st)
+                for f3 in set(m.status) - before:
+                    tags[f3] = "nested-cfg-macro"
+                nested = "        cfg_if::cfg_if! {\n            if #[cfg(target_os = \"linux\")] {\n                mod %s;\n            }\n        }\n" % n3
+                m.feats.add("nested-cfg-macro")
+            return "cfg_if::cfg_if! {\n    if #[cfg(unix)] {\n        mod %s;\n%s    } else {\n        %s\n    }\n}\n" % (name, nested, other)
         if "cfg_match" in feats and k < 66:
             m.feats.add("cfg_match")
             target, cdir = place(childdir, name)
@@ -413,7 +425,18 @@ def generate(rng, tier):
         m.files["rustfmt.toml"] = "max_width = 100\n"
         m.feats.add("outer-root-first")
     fault = None
-    if lane == "fault":
+    if lane == "fault" and root_status == "E" and "stemdir" not in feats and rng.chance(15):
+        # a module declared inside an inline module of a non-root file: `im_y.rs: mod im_z { mod im_w; }` means
+        # im_y/im_z/im_w.rs.  That file does not exist; a same-named file one level up (im_y/im_w.rs), which nothing
+        # declares, does
+        rd = os.path.dirname(root)
+        m.files[os.path.join(rd, "im_y.rs")] = "mod im_z {\n    mod im_w;\n}\n" + body()
+        m.files[os.path.join(rd, "im_y", "im_w.rs")] = gen_rust.tiny_unformatted("one_level_up")
+        m.files[root] = insert_decls(m.files[root], "mod im_y;\n")
+        m.status[os.path.join(rd, "im_y.rs")] = "E"
+        m.status[os.path.join(rd, "im_y", "im_w.rs")] = "X"
+        fault = {"kind": "inline-missing", "target": os.path.join(rd, "im_y", "im_z", "im_w.rs"), "decl_file": os.path.join(rd, "im_y.rs"), "name": "im_w"}
+    elif lane == "fault":
         decls_for_fault = [d for d in decls_for_fault if m.status.get(d[2]) == "E" and m.status.get(d[0]) in ("E",) and d[0] not in tags and d[2] not in tags]
         if decls_for_fault:
             df, name, target = rng.choice(decls_for_fault)
@@ -469,7 +492,9 @@ def execute(case):
         if lane == "fault":
             f = case["fault"]
             t = f["target"]
-            if f["kind"] == "missing":
+            if f["kind"] == "inline-missing":
+                pass  # the world is built that way
+            elif f["kind"] == "missing":
                 del world["files"][t]
                 sib = os.path.join(os.path.dirname(f["decl_file"]), "zz_unrelated.rs")
             elif f["kind"] == "ambiguous":
